@@ -157,6 +157,7 @@ def run_case(case):
                 elif np.linalg.norm(p - want) > 1e-8 * (1 + R):
                     bad("radial-parameter-not-arc-length", f"t={t}: {np.round(p, 6).tolist()}, expected the creation point turned by t/R: {want.round(6).tolist()}", R=R, t=round(t, 4))
     elif what.startswith("curve"):
+        R_ = FRAMES[fr][0]
         if what == "curve_line":
             curve = cb.LineCurve(Pt(fr, [0.1, 0.2, 0.3]), Pt(fr, [1.5, -0.4, 0.9]), (0, 1))
         elif what == "curve_circle":
@@ -193,6 +194,19 @@ def run_case(case):
                 cl = cb.CurveClamp(pos, long_curve)
                 if np.linalg.norm(cl.position - pos) > 1e-7:
                     bad("fresh-clamp-position", f"created exactly on a line curve of length 100 at x={x}: reported {np.linalg.norm(cl.position - pos):.3g} away (junctions are matched within 1e-7)", x=x)
+        if what == "curve_circle":
+            # a helix in models of three sizes (parameter = angle, not a length), created exactly on it with a starting
+            # parameter that is near, not at, the answer
+            for size in (2e-3, 1.0, 2e3):
+                helix = cb.AnalyticCurve(lambda t, size=size: np.array(Pt(fr, [0, 0, 0])) * size + size * (R_ @ np.array([math.cos(t), math.sin(t), 0.1 * t])), (0.0, 6.0))
+                for t0 in (1.23, 3.4, 5.1):
+                    for dt in (None, -0.02, 0.3):
+                        execs += 1
+                        pos = np.array(helix.get_point(t0))
+                        cl = cb.CurveClamp(pos, helix) if dt is None else cb.CurveClamp(pos, helix, t0 + dt)
+                        err = float(np.linalg.norm(cl.position - pos))
+                        if err > 1e-5 * size:
+                            bad("fresh-clamp-position", f"model size {size}: created exactly on a helix at t={t0} with starting parameter {None if dt is None else t0 + dt}: reports a point {err:.3g} away", t=t0, size=size, dt=dt)
         cl = cb.CurveClamp(np.array(curve.get_point(lo + 0.3 * (hi - lo))), curve)
         for k in range(11):
             t = lo + (hi - lo) * k / 10
@@ -225,6 +239,21 @@ def run_case(case):
                     execs += 1
                     if np.linalg.norm(cl.position - surf((a, b))) > 1e-12:
                         bad("position-off-manifold", f"params ({a},{b})", a=a, b=b)
+        # the same surface in a model 1000 times smaller / larger (parameters unchanged), created exactly on it with a
+        # starting guess that is not the answer (the default one, and one near it)
+        for size in (1e-3, 1.0, 1e3):
+            surf_s = lambda p, size=size: size * surf(p)  # noqa: E731
+            for uv in ((0.2, -0.3), (-0.6, 0.5), (0.06, 0.04)):
+                pos = surf_s(uv)
+                for guess in (None, [0.0, 0.0], [uv[0] + 0.05, uv[1] - 0.04]):
+                    execs += 1
+                    if guess is None:
+                        cl = cb.ParametricSurfaceClamp(pos, surf_s, [[-1, 1], [-1, 1]])
+                    else:
+                        cl = cb.ParametricSurfaceClamp(pos, surf_s, [[-1, 1], [-1, 1]], guess)
+                    err = float(np.linalg.norm(cl.position - pos))
+                    if err > 1e-5 * size:
+                        bad("fresh-clamp-position", f"model size {size}: created exactly on the surface at uv={uv} with starting guess {guess}: reports a point {err:.3g} away", uv=list(uv), size=size, guess=guess)
     elif what == "inputs_mutated":
         # the declared constraint is the one given at construction: every clamp/link is built twice from float64 arrays,
         # the arrays given to the first one are then changed in place (every non-empty subset of them), and both must
